@@ -1,0 +1,62 @@
+//go:build verif
+
+// Contracts for package scheduler (pod resource requests). Compiled only with -tags verif;
+// nothing but //@ specification comments. Read by /verif/engine (govc).
+
+package scheduler
+
+//@ import v1 "k8s.io/api/core/v1"
+
+// a resource list's CPU request in millicores / memory request in bytes (0 when absent)
+//@ spec rlCPUm(rl v1.ResourceList) int = (has(rl, "cpu") ? milli(rl["cpu"]) : 0)
+//@ spec rlMemV(rl v1.ResourceList) int = (has(rl, "memory") ? qval(rl["memory"]) : 0)
+
+// a Resource's quantities carry its two numbers unchanged (C13: what calcPercentUsage divides)
+//@ func (*Resource).GetCPUQuantity(r) (q)
+//@   requires r != nil
+//@   ensures q != nil && fresh(q) && milli(deref(q)) == r.MilliCPU
+//@ func (*Resource).GetMemoryQuantity(r) (q)
+//@   requires r != nil
+//@   ensures q != nil && fresh(q) && qval(deref(q)) == r.Memory && milli(deref(q)) == 1000 * r.Memory
+
+//@ func max(a, b) (r)
+//@   ensures r == (a >= b ? a : b)
+
+//@ func (*Resource).Add(r, rl)
+//@   modifies r.MilliCPU, r.Memory
+//@   ensures r != nil ==> r.MilliCPU == old(r.MilliCPU) + rlCPUm(rl) && r.Memory == old(r.Memory) + rlMemV(rl)
+//@ loop #0
+//@   modifies r.MilliCPU, r.Memory
+//@   invariant r.MilliCPU == old(r.MilliCPU) + (#seen["cpu"] ? milli(rl["cpu"]) : 0) && r.Memory == old(r.Memory) + (#seen["memory"] ? qval(rl["memory"]) : 0)
+//@   invariant forall s string :: #seen[s] ==> has(rl, s)
+
+//@ func (*Resource).SetMaxResource(r, rl)
+//@   modifies r.MilliCPU, r.Memory
+//@   ensures r != nil ==> r.MilliCPU == (has(rl, "cpu") ? max(old(r.MilliCPU), milli(rl["cpu"])) : old(r.MilliCPU)) && r.Memory == (has(rl, "memory") ? max(old(r.Memory), qval(rl["memory"])) : old(r.Memory))
+//@ loop #0
+//@   modifies r.MilliCPU, r.Memory
+//@   invariant r.MilliCPU == (#seen["cpu"] ? max(old(r.MilliCPU), milli(rl["cpu"])) : old(r.MilliCPU)) && r.Memory == (#seen["memory"] ? max(old(r.Memory), qval(rl["memory"])) : old(r.Memory))
+//@   invariant forall s string :: #seen[s] ==> has(rl, s)
+
+// sums / maxima over the first k containers
+//@ opaque spec sumCPU(cs []v1.Container, k int) int = (k <= 0 ? 0 : sumCPU(cs, k - 1) + rlCPUm(cs[k - 1].Resources.Requests))
+//@ opaque spec sumMem(cs []v1.Container, k int) int = (k <= 0 ? 0 : sumMem(cs, k - 1) + rlMemV(cs[k - 1].Resources.Requests))
+// maxCPUFrom(cs, k, a): max of a and the first k init-container requests
+// (an init container without a request for the resource does not take part in the maximum)
+//@ opaque spec maxCPUFrom(cs []v1.Container, k int, a int) int = (k <= 0 ? a : (has(cs[k - 1].Resources.Requests, "cpu") ? max(maxCPUFrom(cs, k - 1, a), milli(cs[k - 1].Resources.Requests["cpu"])) : maxCPUFrom(cs, k - 1, a)))
+//@ opaque spec maxMemFrom(cs []v1.Container, k int, a int) int = (k <= 0 ? a : (has(cs[k - 1].Resources.Requests, "memory") ? max(maxMemFrom(cs, k - 1, a), qval(cs[k - 1].Resources.Requests["memory"])) : maxMemFrom(cs, k - 1, a)))
+
+// C13: a pod's request = max(sum of container requests, largest init-container request) + overhead, per resource.
+//@ spec podCPU(p *v1.Pod) int = maxCPUFrom(p.Spec.InitContainers, len(p.Spec.InitContainers), sumCPU(p.Spec.Containers, len(p.Spec.Containers))) + (p.Spec.Overhead != nil ? rlCPUm(p.Spec.Overhead) : 0)
+//@ spec podMem(p *v1.Pod) int = maxMemFrom(p.Spec.InitContainers, len(p.Spec.InitContainers), sumMem(p.Spec.Containers, len(p.Spec.Containers))) + (p.Spec.Overhead != nil ? rlMemV(p.Spec.Overhead) : 0)
+//@ func ComputePodResourceRequest(pod) (res)
+//@   requires pod != nil
+//@   ensures res != nil && fresh(res)
+//@   ensures [C13] res.MilliCPU == podCPU(pod) && res.Memory == podMem(pod)
+//@ loop #0
+//@   modifies resource.MilliCPU, resource.Memory
+//@   invariant unfold(sumCPU(pod.Spec.Containers, #i)) && unfold(sumMem(pod.Spec.Containers, #i)) && resource.MilliCPU == sumCPU(pod.Spec.Containers, #i) && resource.Memory == sumMem(pod.Spec.Containers, #i)
+//@ loop #1
+//@   modifies resource.MilliCPU, resource.Memory
+//@   invariant unfold(maxCPUFrom(pod.Spec.InitContainers, #i, sumCPU(pod.Spec.Containers, len(pod.Spec.Containers)))) && unfold(maxMemFrom(pod.Spec.InitContainers, #i, sumMem(pod.Spec.Containers, len(pod.Spec.Containers))))
+//@   invariant resource.MilliCPU == maxCPUFrom(pod.Spec.InitContainers, #i, sumCPU(pod.Spec.Containers, len(pod.Spec.Containers))) && resource.Memory == maxMemFrom(pod.Spec.InitContainers, #i, sumMem(pod.Spec.Containers, len(pod.Spec.Containers)))
